@@ -31,5 +31,6 @@ import SwcVerif.Props.C19Front
 #print axioms C19.generated_pop_getitem
 #print axioms C19.frontStep_inv
 #print axioms C19.generated_front_load_at_most_once
-#print axioms C19.generated_pop_slice_partial
+#print axioms C19.slice_indices_eq_spec
+#print axioms C19.generated_pop_slice
 #print axioms C19.generated_to_population
